@@ -160,11 +160,15 @@ def split_context_transitions(ctx, u, sc, R):
         ctx.ok(R, 'split_context|transitions', lp, '%d (contexts, escaped, character, max_splits) combinations: every turn follows the stateful bracket/quote/escape scheme' % n_ok)
     return True
 
+WSAME = [False]
+
+
 def run(ctx):
     ctx.rule('C08-R1', 'join: the delimiter is emitted by item position (first-flag / index), never by a predicate over the accumulated output; every item is appended', 6)
     ctx.rule('C08-R2', 'split: loop admits token_start == size() (trailing empty piece), max_splits stops the search not the emission, tail pushed then break; string and wstring versions identical; split_context pushes the tail', 8)
     ctx.rule('C08-R3', 'string_vprintf builds its result from the pointer and length returned by vasprintf (no fixed buffer, no strlen) and frees it; string_printf pairs va_start/va_end', 5)
     ctx.rule('C08-R4', 'split_args / split_context / strip_multiline_comments throw only runtime_error; the other helpers contain no throw; str_replace_all advances past each match', 14)
+    ctx.rule('C08-R6', 'split by evaluation (E-TABLE): split(s, \',\', max_splits) folded on every string over {a, delimiter, NUL} up to length 4 (5 in the thorough tier), two long strings and max_splits 0..3 returns python\'s split pieces', 1)
     ctx.rule('C08-R5', 'quote-aware scanners carry the escape state in a variable (set on an unescaped backslash, cleared after one character); no look-behind at the previous character; split_args starts a token at one site only', 5)
     w = ctx.unit(witness_unit('c08.cc'))
     u = ctx.unit(repo_unit('Strings.cc'))
@@ -238,6 +242,50 @@ def run(ctx):
         calls = [c for c in walk(body_of(bc)) if c.get('kind') == 'CallExpr' and call_name(c) == 'join']
         ctx.check(len(calls) == 1 and canon(call_args(calls[0])[0]) == 'this.blocks', R, 'BlockStringWriter::close|uses-join', bc, 'close() = join(blocks, separator)', 'BlockStringWriter::close does not delegate to join')
 
+    # ---- R6 split by evaluation (E-TABLE)
+    split_decided = [False]
+    with ctx.section('C08-R6', 'C08'):
+        import itertools as _it
+        from peval import PEval as _PE, Str as _Str, VecL as _VecL, Undecided as _Und, Fault as _Fault, Thrown as _Thr
+        sp6 = [f for f in u.funcs('phosg::split') if len(params_of(f)) == 3 and 'wchar_t' not in (qtype(params_of(f)[1]) or '')]
+        ctx.need(len(sp6) == 1, 'split(string, char, size_t) not found')
+        PE6 = _PE([u], max_depth=8)
+        alphabet = (b'a', b',', b'\0')
+        maxlen = 5 if ctx.tier == 'thorough' else 4
+        n6, bad6, und6 = 0, None, None
+        docs = [b''.join(t) for L_ in range(0, maxlen + 1) for t in _it.product(alphabet, repeat=L_)] + [b'a' * 300 + b',' + b'b' * 300, b',' * 40]
+        for d_ in docs:
+            for ms in (0, 1, 2, 3):
+                if und6 or bad6:
+                    break
+                try:
+                    r_ = PE6.call_with(sp6[0], [_Str(d_), ord(','), ms])
+                except _Und as e_:
+                    if isinstance(e_, _Thr):
+                        bad6 = 'split(%r, \',\', %d) throws %s' % (d_, ms, e_.etype)
+                    else:
+                        und6 = str(e_)
+                    continue
+                except _Fault as e_:
+                    bad6 = 'split(%r, \',\', %d) %s' % (d_, ms, e_)
+                    continue
+                if not isinstance(r_, _VecL) or not all(isinstance(x_, _Str) for x_ in r_.items):
+                    und6 = 'result is not a vector of strings'
+                    continue
+                got = [bytes(x_.b) for x_ in r_.items]
+                want = d_.split(b',', ms if ms else -1)
+                n6 += 1
+                if got != want:
+                    bad6 = 'split(%r, \',\', %d) returns %s; the pieces are %s (joining them with the delimiter must give the string back, pieces = delimiters + 1 capped at max_splits + 1)' % (d_, ms, got, want)
+        if und6:
+            ctx.undecided('C08-R6', 'split|pieces', sp6[0], 'split could not be folded (%s)' % und6)
+        elif bad6:
+            ctx.bad('C08-R6', 'split|pieces', sp6[0], bad6)
+        else:
+            ctx.ok('C08-R6', 'split|pieces', sp6[0], 'split(s, delim, max_splits) returns the reference pieces for every string over {a, delimiter, NUL} up to length %d, two long strings, max_splits 0..3 (%d cases)' % (maxlen, n6))
+            split_decided[0] = True
+    if split_decided[0]:
+        ctx.defer({'C08-R2'}, 'C08-R6', only=lambda k_: k_.startswith('split(string)|') or (k_.startswith('split(wstring)|') and WSAME[0]))
     # ---- R2
     with ctx.section('C08-R2', 'C08'):
         R = 'C08-R2'
@@ -264,6 +312,7 @@ def run(ctx):
         b = [nf(s) for s in stmts_of(body_of(s_w)) if s.get('kind') != 'DeclStmt'] + [nf(kids(v)[-1]) for v in walk(body_of(s_w)) if v.get('kind') == 'VarDecl' and kids(v) and v.get('name')]
         sa = [canon(x) for x in walk(body_of(s_str)) if x.get('kind') in ('BinaryOperator', 'CXXMemberCallExpr', 'ConditionalOperator')]
         sb = [canon(x) for x in walk(body_of(s_w)) if x.get('kind') in ('BinaryOperator', 'CXXMemberCallExpr', 'ConditionalOperator')]
+        WSAME[0] = (sa == sb)
         ctx.check(sa == sb, R, 'split|string==wstring', s_w, 'identical modulo character type', 'split(wstring) differs from split(string): %s' % [p for p in zip(sa, sb) if p[0] != p[1]][:2])
         for f, lab in ((s_str, 'split(string)'), (s_w, 'split(wstring)')):
             ctx.fn(lab)
